@@ -128,16 +128,16 @@ LitVal(k, v) == CASE k = "Null" -> NULL
 \* ------------------------------------------------------------------ evaluation
 IsNullLit(t) == t[1] = "Lit" /\ t[2] = "Null"
 RECURSIVE Eval(_, _)
-EvalCall(f, args, env) ==
-  LET a == Eval(args[1], env) IN
-  CASE f \in {"contains", "startswith", "endswith", "indexof", "concat"} ->
-         StrFn2(f, a, Eval(args[2], env), args[2][1] = "Lit")
+\* built-in function f applied to already evaluated arguments; patLit: the 2nd argument was a literal
+ApplyFn(f, vals, patLit) ==
+  LET a == vals[1] IN
+  CASE f \in {"contains", "startswith", "endswith", "indexof", "concat"} -> StrFn2(f, a, vals[2], patLit)
     [] f = "length"  -> IF a = NULL THEN NULL ELSE IV(Len(a[2]))
     [] f = "tolower" -> IF a = NULL THEN NULL ELSE SV([i \in 1..Len(a[2]) |-> LowerC(a[2][i])])
     [] f = "toupper" -> IF a = NULL THEN NULL ELSE SV([i \in 1..Len(a[2]) |-> UpperC(a[2][i])])
     [] f = "trim"    -> IF a = NULL THEN NULL ELSE SV(TrimR(TrimL(a[2])))
-    [] f = "substring" -> LET i == Eval(args[2], env)
-                              k == IF Len(args) = 3 THEN Eval(args[3], env) ELSE IV(-1)
+    [] f = "substring" -> LET i == vals[2]
+                              k == IF Len(vals) = 3 THEN vals[3] ELSE IV(-1)
                           IN IF a = NULL \/ i = NULL \/ k = NULL THEN NULL ELSE SV(Substr(a[2], i[2], k[2]))
     [] f = "year"   -> IF a = NULL THEN NULL ELSE IV(a[2])
     [] f = "month"  -> IF a = NULL THEN NULL ELSE IV(a[3])
@@ -145,6 +145,7 @@ EvalCall(f, args, env) ==
     [] f = "hour"   -> IF a = NULL THEN NULL ELSE IV(a[5])
     [] f = "minute" -> IF a = NULL THEN NULL ELSE IV(a[6])
     [] f = "second" -> IF a = NULL THEN NULL ELSE IV(a[7])
+EvalCall(f, args, env) == ApplyFn(f, [i \in 1..Len(args) |-> Eval(args[i], env)], Len(args) >= 2 /\ args[2][1] = "Lit")
 Eval(t, env) ==
   CASE t[1] = "Id"   -> env[t[3]]
     [] t[1] = "Lit"  -> LitVal(t[2], t[3])
